@@ -909,6 +909,15 @@ func (m *Model) stepPushManifest(op *Op, res *Res) (bool, string) {
 			return m.wantFail(res.Err, "PushManifest over an existing tag in immutable-tags mode", ociregistry.ErrDenied)
 		}
 	}
+	if m.ImmutableTags && r != nil && res.Err != nil {
+		// In immutable-tags mode the media type of a manifest that a tag reaches may
+		// be refused to change (it determines what the manifest references).
+		if cur := r.Manifests[dig]; cur != nil && cur.MT != op.MediaType {
+			if _, _, loose := r.closure(); loose[dig] {
+				return true, ""
+			}
+		}
+	}
 	blobs, mans, subject, ok := parseRefs(op.MediaType, op.Data)
 	if !ok {
 		return m.wantFail(res.Err, "PushManifest of malformed JSON")
